@@ -35,6 +35,8 @@ var rejections = []rejection{
 	// a rejected agency row naming another (loadable) zone: it must not decide the zone of the dates
 	{"agency.txt", "blank-agency_name-with-another-timezone", map[string]string{"agency_name": "", "agency_timezone": "Asia/Tokyo"}, 1},
 	{"agency.txt", "blank-agency_url-with-another-timezone", map[string]string{"agency_url": "", "agency_timezone": "Pacific/Auckland"}, 1},
+	// a row of separators only: every cell blank (it is a row all the same: it is numbered, rejected and reported)
+	{"agency.txt", "all-cells-blank", map[string]string{"*": ""}, 1},
 	{"routes.txt", "blank-route_id", map[string]string{"route_id": ""}, 1},
 	{"routes.txt", "blank-route_type", map[string]string{"route_type": ""}, 1},
 	{"routes.txt", "unknown-agency_id", map[string]string{"agency_id": "NOSUCH"}, 1},
@@ -180,6 +182,12 @@ func spliceRejected(m *feedModel, rj rejection, pos int, tag string) []string {
 		row[t.col(idc)] = "ZZ" + tag
 	}
 	for col, v := range rj.cells {
+		if col == "*" {
+			for i := range row {
+				row[i] = v
+			}
+			continue
+		}
 		if strings.HasPrefix(v, "=") {
 			v = v[1:] // the literal id of a valid row of this file
 		} else if v == "S1" || v == "S2" {
